@@ -6,15 +6,20 @@ A case is an event history on the virtual-time loop, for one front-end:
   {'fe': 'v1'|'v2', 'datas': [{'name': [c,..], 'content': k}, ..],
    'events': [[t, 'x', {'name': [c,..], 'cbp': bool, 'dig': None|k|-1, 'life': ms|None, 'verdict': str, 'lat': ms}],
               [t, 'd', k], [t, 'n', [c,..], dig, reason], [t, 'c', i], [t, 's'], [t, 't'], ...],
-   'tie': None | {...}}           (see cases(): the tie stream is judged by the oracle only)
+   'tie': None | {...}}           (see gen_tie(): a packet in the loop turn of a timer / of a caller's cancellation)
 
 Optional (hardening) fields.  Interest spec: 'ap': None|'e'|'p' (ApplicationParameters absent / present-empty /
 b'param'), 'sg': bool (signed, DigestSha256), 'mbf': bool (MustBeFresh), 'nrp': bool (legacy need_raw_packet),
-'nr': bool (v2 no_response), 'defer': ms (the awaitable returned by express is awaited that much later), 'php': k (caller-supplied digest placeholder inserted at position k of the name; never
-generated, see candidate_fixes/C03-placeholder-final-name.md), life 0.  Data: 'fp': FreshnessPeriod.  A name component
->= 900 stands for the ParametersSha256DigestComponent of an Interest with that (ap, sg) on the rest of the name.
+'nr': bool (no_response: honoured by v2, ignored by the legacy front-end), 'defer': ms (the awaitable returned by
+express is awaited that much later), 'php': k (caller-supplied digest placeholder inserted at position k of the name),
+life 0.  Data: 'fp': FreshnessPeriod.  A name component >= 900 stands for the ParametersSha256DigestComponent of an
+Interest with that (ap, sg) on the rest of the name.
 Events: [t, 'd', k, 'lp'] = the Data arrives wrapped in an LpPacket; [t, 'b', [packet, ..]] = several packets
-(['d', k] / ['n', name, dig, reason]) in ONE loop turn (judged by the oracle alone, any order allowed).
+(['d', k] / ['n', name, dig, reason]) in ONE loop turn.
+
+The model (NdnModel/Pit.lean) covers all of it.  Events that share a loop turn with each other or with a timer may
+run in any order: the model driver answers with the outcome vectors of all linearisations (`lins`), and the
+implementation must end in one of them; when there is only one, everything observed must be equal.
 
 Interests are numbered in order of their 'x' events.  `dig`: None = no implicit digest, k = SHA-256 of
 Data k, -1 = a digest no Data has.  Times are ms after the start, strictly increasing; before every event
@@ -29,36 +34,60 @@ PROP = 'C03'
 TITLE = 'Every expressed Interest completes exactly once with the right outcome'
 LEAN_TARGETS = ['NdnProofs.Props.C03']
 THEOREMS = ['Ndn.C03.' + t for t in (
-    'refines_spec', 'no_internal_error', 'complete_at_most_once', 'nothing_remains', 'linked_entries_are_waiting',
+    'refines_spec', 'no_internal_error', 'complete_at_most_once', 'nothing_remains', 'nothing_remains_held',
+    'linked_entries_are_waiting',
     'pit_empty_at_quiescence', 'one_data_all_matching_no_others', 'nack_exactly_the_named', 'cancel_only_its_target',
-    'tick_fires_due_timers', 'complete_exactly_once_after_shutdown', 'complete_exactly_once_after_deadline',
-    'outcome_correct', 'frame')]
+    'tick_fires_due_timers', 'reach_fires_earlier_timers', 'complete_exactly_once_after_shutdown', 'await_le_deadline',
+    'complete_exactly_once_after_deadline', 'outcome_correct', 'outcome_correct_no_tie', 'frame',
+    'no_response_off_the_books', 'no_response_ignored_v1', 'expiry_cases',
+    'tie_allowed_iff', 'tie_turn_orders', 'tie_plain_allowed', 'tie_reachable_exact', 'tie_refines_spec',
+    'tie_no_internal_error', 'tie_complete_at_most_once', 'tie_nothing_remains', 'tie_pit_empty_at_quiescence',
+    'tie_outcome_correct', 'tie_frame', 'tie_plain_no_tie')]
 PARTIAL = {}
 TRUSTED = [
     'C03: asyncio semantics are modelled, not verified: Future set_result/set_exception/cancel, wait_for '
-    '(cancels the inner future on timeout and on outer cancellation, Python 3.12 timeouts.timeout), FIFO ready queue; '
+    '(cancels the inner future on timeout and on outer cancellation, Python 3.12 timeouts.timeout; wait_for(fut, 0) on an '
+    'unresolved future times out at once), a coroutine body runs at its first await, FIFO ready queue; '
     'pygtrie map semantics (setdefault / prefixes / __delitem__ / get)',
     'C03: time is a virtual clock; `tick t` fires all due timers Interest by Interest (timers of different Interests '
-    'commute); an event and a timer in the same loop turn (a tie) are outside the model and are judged by the '
-    'oracle alone (either order allowed)',
-    'C03: the awaitable returned by express is wrapped in a task at once (deadline = express time + lifetime); '
-    'lifetime > 0; v2 100 ms grace for a late await is not modelled',
+    'commute; all timers of one instant fire together). Events that share a loop turn with a timer or with each other '
+    '(`Turn`) are nondeterministic in the model: every order of the events, the timers of the instant after any number '
+    'of them (`lins`); the theorems hold for every linearisation and the implementation must end in one of the outcome '
+    'vectors the model allows (membership; PIT sizes and validator calls in between are compared only when all '
+    'linearisations agree). An await scheduled for the very instant of a caller cancellation precedes it (there must be '
+    'a task to cancel)',
+    'C03: the instant of the first await of what express returned is part of the history (`defer`; 0 = awaited at '
+    'once); before it a caller cannot cancel (the harness has no task to cancel). The unit of the model clock is the '
+    'millisecond (v2 grace = 100)',
     'C03: names are lists of generic components, packets enter the model after parse_data/parse_interest/LpPacket '
     'decoding (codec = C01/C07/C10); SHA-256 digests are compared by identity of the Data packet',
 ]
 RULE = ('event histories of 2..5 concurrently pending Interests over a 3-level name tree (same / nested / sibling '
         'names, CanBePrefix, implicit digest right or wrong), Data and Nack packets, caller cancellation, shutdown, '
-        'clock ticks, scripted validators (verdict, latency straddling the deadline), both front-ends; separate '
-        'stream of same-loop-turn ties (timer or cancellation versus packet); hardening streams: Interests with '
-        'ApplicationParameters / a signature (name ends in the parameters digest; Data with the right / another digest / '
-        'none), MustBeFresh x FreshnessPeriod, legacy need_raw_packet, Data inside LpPackets, Nack reasons 0..2^64-1, '
-        'bursts of Data / Nack in one loop turn (any order allowed), lifetime 0, v2 no_response, late awaits. non-trivial = at least two Interests '
+        'clock ticks, scripted validators (verdict - all ValidResult members, raising, and for v2 values that are no '
+        'ValidResult member: False / None / 0 / True / a string -, latency straddling the deadline), both front-ends; '
+        'separate stream of same-loop-turn ties: every combination of (deadline | caller cancellation) x (Data | longer '
+        'Data | Nack) x every order the loop can produce (reception task on the still pending future; reception task '
+        'between the cancellation of the future and the clean-up of the waiting coroutine; one after the other) x '
+        'front-end, then random ones; whatever escapes a reception task or reaches the loop\'s exception handler is an '
+        'internal error; '
+        'hardening streams: Interests with '
+        'ApplicationParameters / a signature (name ends in the parameters digest or carries it at a caller-chosen place; '
+        'Data with the right / another digest / none), MustBeFresh x FreshnessPeriod, legacy need_raw_packet, Data inside '
+        'LpPackets, Nack reasons 0..2^64-1, bursts of Data / Nack in one loop turn, lifetime 0, no_response (both '
+        'front-ends), awaits 20..300 ms late (inside and outside the lifetime / the 100 ms grace). Every case is put to '
+        'the model. non-trivial = at least two Interests '
         'and at least one Interest finished by something other than its own timeout; distinct = distinct histories')
 
 NAMES = [[1], [1, 2], [1, 3], [1, 2, 4], [1, 2, 5], [1, 3, 4], [6]]
 LIVES = [23, 53, 103, 203, 503]
 LATS = [0, 0, 0, 0, 0, 14, 44, 104, 304]
-V2_VERDICTS = ['PASS'] * 8 + ['ALLOW_BYPASS', 'FAIL', 'TIMEOUT', 'SILENCE', 'RAISE_TIMEOUT', 'RAISE_OTHER']
+V2_VERDICTS = ['PASS'] * 8 + ['ALLOW_BYPASS', 'FAIL', 'TIMEOUT', 'SILENCE', 'RAISE_TIMEOUT', 'RAISE_OTHER',
+                              'B_FALSE', 'B_NONE', 'B_ZERO', 'B_TRUE', 'B_STR']
+# B_*: a v2 validator that hands back something that is not a ValidResult member (a validator written in the legacy
+# bool style, one that falls off its end, one that returns the *name* of a verdict): not PASS / ALLOW_BYPASS, hence a
+# validation failure carrying that very value
+B_VALUES = {'B_FALSE': False, 'B_NONE': None, 'B_ZERO': 0, 'B_TRUE': True, 'B_STR': 'PASS'}
 V1_VERDICTS = ['PASS'] * 7 + ['DEFAULT', 'FAIL', 'FAIL', 'NONE', 'ZERO', 'ONE', 'RAISE_TIMEOUT', 'RAISE_OTHER']
 # DEFAULT: no validator is supplied, the application-wide data_validator (sha256_digest_checker) decides; every
 # Data of the harness carries a valid DigestSha256 signature, so it accepts (its calls are not logged)
@@ -99,8 +128,21 @@ def eff_name(spec):
     c = pd_code(spec.get('ap'), spec.get('sg'))
     if spec.get('php') is not None:
         k = spec['php']
-        return list(spec['name'][:k]) + [c + 10 * len(spec['name'][k:])] + list(spec['name'][k:])
+        # the digest of a signed Interest covers the other name components (code + 10 * number of components behind
+        # it); that of an unsigned one covers the parameters only: the same bytes wherever it stands
+        return list(spec['name'][:k]) + [c + (10 * len(spec['name'][k:]) if spec.get('sg') else 0)] + \
+            list(spec['name'][k:])
     return list(spec['name']) + [c]
+
+
+def verdict_name(types, r):
+    """the verdict a ValidationFailure carries: the name of the ValidResult member, or which non-member value it is"""
+    if isinstance(r, types.ValidResult):
+        return r.name
+    for k, v in B_VALUES.items():
+        if type(v) is type(r) and v == r:
+            return k
+    return 'B_?' + repr(r)[:20]
 
 
 class ScriptedError(Exception):
@@ -178,8 +220,8 @@ def gen_history(rng, fe, n_events=None, p_ap=0.10, p_burst=0.03, p_odd=0.02, p_d
         r = rng.random()
         if r < p_odd * 0.6:
             s['life'] = 0
-        elif r < p_odd and fe == 'v2':
-            s['nr'] = True
+        elif r < p_odd:
+            s['nr'] = True                                  # honoured by v2, ignored by the legacy front-end
         specs.append(s)
         return s
 
@@ -255,9 +297,14 @@ def gen_history(rng, fe, n_events=None, p_ap=0.10, p_burst=0.03, p_odd=0.02, p_d
             'bad_sig': fe == 'v1' and rng.random() < 0.15}
 
 
-def gen_tie(rng, fe):
+TIE_ORDERS = {'timer': ['packet-first', 'packet-last'],
+              'cancel': ['packet-first', 'packet-last', 'packet-then', 'then-packet']}
+
+
+def gen_tie(rng, fe, kind=None, pkt=None, order=None):
     """two or three Interests on one name; at the deadline of the first (or at the instant the caller cancels it)
-    a packet for that name is processed in the same loop turn, before or after the timer"""
+    a packet for that name (the Data, a longer Data, a Nack) is processed in the same loop turn, in each of the orders
+    the loop can produce (see Run.do_tie)"""
     nm = rng.choice(NAMES[1:4])
     datas = [{'name': nm, 'content': 0}, {'name': nm + [4], 'content': 1}]
     n = rng.randint(2, 3)
@@ -268,9 +315,10 @@ def gen_tie(rng, fe):
         evs.append([t, 'x', {'name': nm, 'cbp': rng.random() < 0.5, 'dig': None,
                              'life': 103 if i == 0 else rng.choice([103 - 10 * i, 203, 503]),
                              'verdict': 'PASS', 'lat': rng.choice([0, 0, 14])}])
-    kind = rng.choice(['timer', 'cancel'])
-    pkt = rng.choice([['d', 0], ['d', 1], ['n', nm, None, 150]])
-    tie = {'kind': kind, 'order': rng.choice(['packet-first', 'packet-last']), 'packet': pkt,
+    kind = kind or rng.choice(['timer', 'cancel'])
+    pkt = {None: rng.choice([['d', 0], ['d', 1], ['n', nm, None, 150]]), 'd': ['d', 0], 'D': ['d', 1],
+           'n': ['n', nm, None, 150]}[pkt]
+    tie = {'kind': kind, 'order': order or rng.choice(TIE_ORDERS[kind]), 'packet': pkt,
            'at': 113 if kind == 'timer' else 60}
     evs.append([1200, 't'])
     return {'fe': fe, 'datas': datas, 'events': evs, 'tie': tie}
@@ -280,6 +328,14 @@ def cases(rng, tier):
     n = 1200 if tier == 'quick' else 20000
     for k in range(n):
         yield gen_history(rng, 'v2' if k % 2 == 0 else 'v1')
+    # ties: every combination of (timer | caller cancellation) x (Data | longer Data | Nack) x order x front-end,
+    # then random ones
+    for rep in range(2 if tier == 'quick' else 10):
+        for fe in ('v2', 'v1'):
+            for kind in ('timer', 'cancel'):
+                for pkt in ('d', 'D', 'n'):
+                    for order in TIE_ORDERS[kind]:
+                        yield gen_tie(rng, fe, kind, pkt, order)
     for k in range(200 if tier == 'quick' else 3000):
         yield gen_tie(rng, 'v2' if k % 2 == 0 else 'v1')
     # hardening streams: parameterised / signed Interests; bursts in one loop turn; lifetime 0 and no_response
@@ -494,7 +550,7 @@ class Run:
         if self.fe == 'v2':
             async def v2(name, sig, ctx):
                 await body(sig)
-                return types.ValidResult[verdict]
+                return B_VALUES[verdict] if verdict in B_VALUES else types.ValidResult[verdict]
             return v2
 
         async def v1(name, sig):
@@ -531,7 +587,9 @@ class Run:
                 kw['need_raw_packet'] = True
         app, val = self.rig.app, self.validator(i, spec)
         self.specs.append(spec)
-        if spec.get('nr'):
+        if spec.get('nr') and self.fe == 'v1':
+            kw['no_response'] = True                        # not a parameter of the legacy front-end: ignored
+        if spec.get('nr') and self.fe == 'v2':
             # v2 no_response: the Interest is sent, nothing is returned and nothing is pending
             try:
                 r = self.rig.loop.call_now(lambda: app.express(nm, val, no_response=True, **kw))
@@ -626,20 +684,33 @@ class Run:
         if isinstance(e, types.InterestCanceled):
             return ['cancelled', at]
         if isinstance(e, types.ValidationFailure):
-            return ['valfail', self.data_id(e.content), getattr(e.result, 'name', str(e.result)), at]
+            return ['valfail', self.data_id(e.content), verdict_name(types, e.result), at]
         if isinstance(e, (ScriptedError, TimeoutError)):
             return ['verr', at]
         return ['internal', type(e).__name__, at]
 
+    def receive(self, wire):
+        """hand one packet to the application as the stream / UDP faces do (one task per packet, not awaited by
+        anybody); the task is kept so that whatever escapes it is seen"""
+        t = self.rig.loop.create_task(self.rig.face.callback(self.rig._typ(wire), wire))
+        self.rx_tasks.append(t)
+        return t
+
     def do_tie(self, tie):
-        """make the packet and the timer (or the caller's cancellation) share one loop turn"""
+        """make the packet and the timer (or the caller's cancellation) share one loop turn.
+        timer: 'packet-first' = the reception task runs on the still pending future, then the timer handle;
+               'packet-last'  = the timer handle has cancelled the future, the reception task runs before the waiting
+                                coroutine has cleaned up.
+        cancel: 'packet-first' = the reception task is scheduled, the caller cancels before it runs (the future is
+                                cancelled, the entry still listed when the packet is handled);
+                'packet-last'  = the caller cancels, the reception task is scheduled behind the coroutine's wake-up;
+                'packet-then' / 'then-packet' = one after the other, each run to quiescence, same instant."""
         loop = self.rig.loop
         wire = self.packet(tie['packet'])
-        typ = self.rig._typ(wire)
         when = T0 + tie['at'] / 1000.0
 
         def inject():
-            loop.create_task(self.rig.face.callback(typ, wire))
+            self.receive(wire)
 
         def other():
             if tie['kind'] == 'cancel' and self.tasks and self.tasks[0] is not None:
@@ -658,6 +729,14 @@ class Run:
             if tie['order'] == 'packet-first':
                 inject()
                 other()
+            elif tie['order'] == 'packet-then':
+                inject()
+                loop.settle()
+                other()
+            elif tie['order'] == 'then-packet':
+                other()
+                loop.settle()
+                inject()
             else:
                 other()
                 inject()
@@ -680,7 +759,7 @@ class Run:
             self.tasks, self.specs, self.done_at, self.vcalls, steps = [], [], {}, [], []
             self.noresp = {}
             self.deferred = []
-            receive_raised = []
+            self.rx_tasks = []
             tie = case.get('tie')
             tie_done = False
             for ev in case['events']:
@@ -694,15 +773,17 @@ class Run:
                     self.express(ev[2])
                 elif k == 'd':
                     if ev[2] < len(self.wires):
-                        rig.deliver(self.packet(ev[1:]))
+                        self.receive(self.packet(ev[1:]))
+                        rig.loop.settle()
                 elif k == 'n':
-                    rig.deliver(self.packet(ev[1:]))
+                    self.receive(self.packet(ev[1:]))
+                    rig.loop.settle()
                 elif k == 'b':
                     # as a stream face does when one read holds several packets: one task per packet, one loop turn
                     for q in ev[2]:
                         w = self.packet(q)
                         if w is not None:
-                            rig.loop.create_task(rig.face.callback(rig._typ(w), w))
+                            self.receive(w)
                     rig.loop.settle()
                 elif k == 'c':
                     if ev[2] < len(self.tasks) and self.tasks[ev[2]] is not None:
@@ -711,6 +792,10 @@ class Run:
                 elif k == 's':
                     rig.loop.call_now(rig.app._clean_up)
                 steps.append(self.observe())
+            # what escaped a reception task (nobody awaits those: the loop would only log it)
+            receive_raised = [type(t.exception()).__name__ for t in self.rx_tasks
+                              if t.done() and not t.cancelled() and t.exception() is not None]
+            receive_raised += ['NeverFinished' for t in self.rx_tasks if not t.done()]
             res = {'steps': steps, 'ints': [self.outcome(i) for i in range(len(self.tasks))],
                    'sent': len(rig.face.sent),
                    'vcalls': sorted(self.vcalls), 'loop_errors': [list(e) for e in self.internal_errors()],
@@ -738,7 +823,7 @@ def _dg(dig):
 def model_verdict(fe, v):
     if fe == 'v1':
         return {'NONE': 'FAIL', 'ZERO': 'FAIL', 'ONE': 'PASS', 'DEFAULT': 'PASS'}.get(v, v)
-    return v
+    return 'OTHER' if v in B_VALUES else v
 
 
 def eff_verdict(case, spec):
@@ -757,23 +842,39 @@ def life_of(fe, spec):
     return spec['life'] if spec['life'] is not None else (4000 if fe == 'v2' else 100)
 
 
+def _pkt_tok(case, q):
+    """model token of a scripted packet ['d', k, ...] / ['n', name, dig, reason, ...]; None = nothing arrives"""
+    if q[0] == 'd':
+        if q[1] >= len(case['datas']):
+            return None
+        d = case['datas'][q[1]]
+        return f"d:{_nm(d['name'])}:{q[1] + 1}:{d['content']}"
+    return f"n:{_nm(q[1])}:{_dg(q[2])}:{q[3]}"
+
+
 def model_events(case):
+    """the history as a list of turns `<t>@<ev>+<ev>..`: the events that share the loop turn of instant t.
+    A burst is one turn; the packet (and the caller's cancellation) of a tie case is a turn at the tie's instant -
+    which is the deadline of the first Interest when the tie is with the timer."""
     fe = case['fe']
     toks = []
+    tie = case.get('tie')
+    tie_done = False
     for ev in case['events']:
         t, k = ev[0], ev[1]
+        if tie and not tie_done and t > tie['at']:
+            evs = (['c:0'] if tie['kind'] == 'cancel' else []) + [_pkt_tok(case, tie['packet'])]
+            toks.append(f"{tie['at']}@" + '+'.join(e for e in evs if e))
+            tie_done = True
         if k == 'x':
             s = ev[2]
             toks.append(f"{t}@x:{_nm(eff_name(s))}:{_dg(s['dig'])}:{1 if s['cbp'] else 0}:{life_of(fe, s)}:"
-                        f"{model_verdict(fe, eff_verdict(case, s))}:{lat_of(s)}")
-        elif k == 'd':
-            if ev[2] < len(case['datas']):
-                d = case['datas'][ev[2]]
-                toks.append(f"{t}@d:{_nm(d['name'])}:{ev[2] + 1}:{d['content']}")
-            else:
-                toks.append(f'{t}@t')
-        elif k == 'n':
-            toks.append(f"{t}@n:{_nm(ev[2])}:{_dg(ev[3])}:{ev[4]}")
+                        f"{model_verdict(fe, eff_verdict(case, s))}:{lat_of(s)}:{s.get('defer') or 0}:"
+                        f"{1 if s.get('nr') else 0}")
+        elif k in ('d', 'n'):
+            toks.append(f"{t}@{_pkt_tok(case, ev[1:]) or 't'}")
+        elif k == 'b':
+            toks.append(f"{t}@" + ('+'.join(x for x in (_pkt_tok(case, q) for q in ev[2]) if x) or 't'))
         elif k == 'c':
             toks.append(f'{t}@c:{ev[2]}')
         elif k == 's':
@@ -784,15 +885,16 @@ def model_events(case):
 
 
 def oracle_only(case):
-    """cases the model does not express: ties, bursts in one loop turn, lifetime 0, no_response, placeholders"""
-    if case.get('tie'):
-        return True
-    for e in case['events']:
-        if e[1] == 'b':
-            return True
-        if e[1] == 'x' and (e[2]['life'] == 0 or e[2].get('nr') or e[2].get('php') is not None or e[2].get('defer')):
-            return True
+    """cases the model does not express: none.  (Ties, bursts, lifetime 0, no_response and late awaits are inside the
+    model: NdnModel/Pit.lean `Turn` / `lins`, `expiry`, `silent`, `held`.)"""
     return False
+
+
+def loose(case):
+    """cases in which only the vector of final outcomes is compared with the model (as a member of the set the model
+    allows): the tie stream, whose runner arranges the order inside the loop turn by hand (PIT sizes and validator
+    calls in between depend on that order)"""
+    return bool(case.get('tie'))
 
 
 def model_line(case, impl):
@@ -803,7 +905,7 @@ def model_line(case, impl):
 
 
 def parse_state(s):
-    if s == 'W' or s.startswith('V'):
+    if s == 'W' or s.startswith('V') or s.startswith('H'):
         return ['pending']
     body, at = s.split('@')
     at = int(at)
@@ -821,19 +923,38 @@ def parse_state(s):
         return ['valfail', int(d), v, at]
     if c == 'E':
         return ['verr', at]
+    if c == 'R':
+        return ['noresp', at]
     raise ValueError(s)
 
 
+def _parse_ints(txt):
+    return [] if txt == '.' else [parse_state(x.split('=')[1]) for x in txt.split()]
+
+
 def model_obs(answer, case, impl):
+    """the model's answer: PIT sizes per turn, final outcomes and validator calls of the plain reading (timers first,
+    events as listed), and the final outcome vectors of the other linearisations.  When there are others (a packet or
+    a cancellation shares its instant with a timer or with another event and the order matters) - and in the tie
+    stream - the implementation must end in one of the allowed vectors; otherwise everything must be equal."""
     assert answer.startswith('ok '), answer
-    steps, ints, vcalls = [p.strip() for p in answer[3:].split('|')]
+    steps, ints, vcalls, alts = [p.strip() for p in answer[3:].split('|')]
     specs = [e[2] for e in case['events'] if e[1] == 'x']
     dflt = {i for i, sp in enumerate(specs) if sp['verdict'] == 'DEFAULT'}      # calls of the default validator are not logged
     vc = [] if vcalls == '.' else sorted([int(x) for x in s.split('.')] for s in vcalls.split())
-    vcalls = ' '.join('.'.join(str(x) for x in c) for c in vc if c[0] not in dflt) or '.'
-    return {'steps': [] if steps == '.' else [[int(x) for x in s.split('/')] for s in steps.split()],
-            'ints': [] if ints == '.' else [parse_state(s.split('=')[1]) for s in ints.split()],
-            'vcalls': [] if vcalls == '.' else sorted([int(x) for x in s.split('.')] for s in vcalls.split())}
+    def own(vec):
+        # `OTHER` = the value the validator of that Interest returned (not a ValidResult member)
+        return [o[:2] + [specs[i]['verdict']] + o[3:] if o[0] == 'valfail' and o[2] == 'OTHER' and i < len(specs)
+                else o for i, o in enumerate(vec)]
+    plain = own(_parse_ints(ints))
+    allowed = [plain] + ([] if alts == '.' else [own(_parse_ints(a.strip())) for a in alts.split(';')])
+    if len(allowed) > 1 or loose(case):
+        got = impl['ints']
+        return {'steps': impl['steps'], 'ints': got if got in allowed else plain, 'vcalls': impl['vcalls']}
+    steps = [] if steps == '.' else [[int(x) for x in s.split('/')] for s in steps.split()]
+    if case.get('tie'):
+        steps = steps[:-2] + steps[-1:]          # unreachable (loose), kept for symmetry with model_events
+    return {'steps': steps, 'ints': plain, 'vcalls': [c for c in vc if c[0] not in dflt]}
 
 
 def impl_obs(impl):
@@ -871,8 +992,9 @@ def spec_allowed(case, i, strict, enforce=None):
     spec['lat'] = lat_of(spec)
     spec['verdict'] = eff_verdict(case, spec)
     dl = evs[pos][0] + life_of(fe, spec)
-    if spec.get('nr'):
+    if spec.get('nr') and fe == 'v2':
         # no_response: nothing is awaited, so nothing finishes; the Interest is off the books at once
+        # (the legacy front-end has no such switch: an ordinary Interest)
         return [['noresp', evs[pos][0]]]
     if (fe == 'v2' and spec['life'] == 0) or spec.get('defer'):
         # a late await (the legacy front-end starts its clock at the first await, the current one gives a grace
@@ -998,6 +1120,8 @@ def _fits(out, pat):
 
 def oracle_common(case, impl, strict, enforce=None):
     fe = case['fe']
+    if impl.get('receive_raised'):
+        return f"internal error escaped a callback: a reception task ended with {impl['receive_raised'][0]}"
     if impl['loop_errors']:
         return f"internal error escaped a callback: {impl['loop_errors'][0][0]}"
     for i, out in enumerate(impl['ints']):
@@ -1139,19 +1263,27 @@ def finding_key(case, impl, why):
 LEVEL_TEXT = ('Lean 4 theorems over a hand-written model of the pending-Interest bookkeeping of both front-ends '
               '(trie name -> node object, node heap with pending lists, node captured at express time, satisfy / '
               'nack_interest / timeout on the captured node / _remove_pending / _clean_up, validator scripts with latency, '
-              'virtual clock): an invariant relating trie, nodes and per-Interest states holds after every event history; '
+              'virtual clock; lifetime 0, v2 no_response, the first await of what express returned as an event of its own '
+              'with the 100 ms grace of v2 and the restarted lifetime of the legacy front-end): an invariant relating trie, '
+              'nodes and per-Interest states holds after every event history; '
               'the model refines an abstract table in which every Interest reacts to every event on its own '
               '(refines_spec); from that: a completion record never changes, no callback raises, a finished Interest '
               'has no entry left, one Data is taken by exactly the matching waiting Interests, Nack/cancel/timer act on '
-              'exactly their targets, every state is justified by the history (outcome_correct), the state of an Interest '
-              'is a function of its own request and the events (frame). The model is tied to the code on every run by '
-              'differential execution of the compiled model against the real NDNApp (v2 and legacy) on a virtual-time '
-              'asyncio loop, plus the property oracle (a per-Interest automaton written from the statement) evaluated on '
-              'the implementation, plus a stream of same-loop-turn ties judged by the oracle alone.')
+              'exactly their targets, every state is justified by the history (outcome_correct, without any hypothesis '
+              'on the history), the state of an Interest '
+              'is a function of its own request and the events (frame). Events sharing a loop turn (packet versus timer, '
+              'bursts, cancellation versus packet) are nondeterminism: the linearisations of a history of turns are plain '
+              'histories, so every theorem holds for each of them (tie_*), and the set of states the driver explores is '
+              'proved to be exactly the set of their final states (tie_reachable_exact). The model is tied to the code on '
+              'every run by differential execution of the compiled model against the real NDNApp (v2 and legacy) on a '
+              'virtual-time asyncio loop - every generated case; equality when the model allows one outcome vector, '
+              'membership when a tie allows several - plus the property oracle (a per-Interest automaton written from the '
+              'statement) evaluated on the implementation.')
 LEVEL_NOTE = ('Proof is about the model; model=code is sampled (differential testing), not proved. The model is the code '
               'with candidate fixes C03-1 (pit cleanup on cancellation / identity check before del) and C03-2 (Nack names '
-              'the implicit digest) applied; on the unchanged tree the oracle reports the violations. Ties (timer and '
-              'packet in one loop turn) are outside the model. In the legacy front-end an Interest may still be validating '
+              'the implicit digest) applied; on the unchanged tree the oracle reports the violations. In a tie the real '
+              'loop resolves the order by its ready queue; the model allows every order, so there the comparison is '
+              'membership of the outcome vector, not equality. In the legacy front-end an Interest may still be validating '
               'after its deadline (finding F15, property C05): complete_exactly_once_after_deadline states completion for '
               'the current front-end and "not waiting" for both.')
 TECHNIQUE = 'Lean 4 proof (invariant over all event histories, refinement to a per-Interest specification automaton) + model/implementation correspondence check on a virtual-time asyncio loop'
